@@ -9,7 +9,8 @@
 //
 // V: directed probes + random trees/patterns run on the real code, recorded, judged by TLC
 //
-//	(JudgeGlob.tla); a second TLC pass on rejected cases yields the sets that key the finding.
+//	(JudgeGlob.tla, one state per case); rejected cases print the missing / extra / duplicate sets
+//	that key the finding.
 package main
 
 import (
@@ -222,15 +223,42 @@ func run(c *lib.Ctx) error {
 	tmp, _ = filepath.EvalSymlinks(tmp)
 	pool := newPool(par)
 
-	if err := genElem(c, pool, tmp); err != nil {
+	// The TLC enumerations run as separate processes while the real code is exercised for V.
+	elemCh := make(chan elemBatch, 4)
+	treeCh := make(chan treeBatch, 4)
+	go tlcElem(c, elemCh)
+	go tlcTree(c, treeCh)
+	jobs, err := record(c, pool, tmp)
+	if err != nil {
 		return err
 	}
-	if err := genTree(c, pool, tmp); err != nil {
-		return err
+	judged := make(chan error, 1)
+	go func() { judged <- judge(c, jobs) }()
+	var first error
+	for b := range elemCh {
+		if first == nil {
+			first = b.err
+		}
+		if first == nil {
+			first = replayElem(c, pool, tmp, b)
+		}
 	}
-	if err := validate(c, pool, tmp); err != nil {
-		return err
+	for b := range treeCh {
+		if first == nil {
+			first = b.err
+		}
+		if first == nil {
+			first = replayTree(c, pool, tmp, b)
+		}
 	}
+	if err := <-judged; first == nil {
+		first = err
+	}
+	if first != nil {
+		return first
+	}
+	c.Set("exhaustive", true)
+	c.Set("g_scope", "trees: the 9 trees of MCGlobTree.Trees (names over {a,b,.} of length <= 2, depth <= 3, files/dirs/links); patterns: every sequence of <= PS segments with <= MW wildcards over the tier's symbol set, plain and with one rotating global-modifier variant; one component: all names over {a,b,c} of length <= 4")
 	c.Assume("TLC is trusted; Glob.tla is the reading of website/ref/language.md (Wildcard expansion); Unspecified cases U1-U4 of the module header are accepted either way")
 	c.Assume("Unicode class membership of non-ASCII characters is evaluated by Go's unicode package and given to the specification as data")
 	c.Assume("file systems: the temp dir's (case-sensitive, UTF-8 names); unreadable directories, Windows volumes, invalid UTF-8 names are out of the model")
@@ -245,35 +273,62 @@ type elemLine struct {
 	May  [][]int `json:"may"`
 }
 
-func genElem(c *lib.Ctx, pool evPool, tmp string) error {
+type elemBatch struct {
+	name  string
+	nl    int
+	idx   int
+	lines []elemLine
+	err   error
+}
+
+func tlcElem(c *lib.Ctx, out chan<- elemBatch) {
+	defer close(out)
 	type cfg struct{ NL, PS, Rich int }
 	cfgs := []cfg{{4, 3, 0}}
 	if c.Thorough() {
 		cfgs = []cfg{{4, 4, 0}, {4, 3, 1}}
 	}
+	seen := map[string]bool{}
 	for ci, g := range cfgs {
 		name := fmt.Sprintf("MCGlobElem(NL=%d,PS=%d,RICH=%d)", g.NL, g.PS, g.Rich)
-		r, err := c.TLC(name, lib.TLCRun{Dir: c.SpecDir("Glob"), Module: "MCGlobElem", Workers: par, Timeout: 12 * time.Minute,
+		r, err := c.TLC(name, lib.TLCRun{Dir: c.SpecDir("Glob"), Module: "MCGlobElem", Workers: c.Pick(2, 3), Timeout: 13 * time.Minute,
 			Files: map[string][]byte{"MCGlobElem.cfg": []byte(fmt.Sprintf("CONSTANT NL = %d\nCONSTANT PS = %d\nCONSTANT RICH = %d\nINIT Init\nNEXT Next\nINVARIANT TheoremAndEmit\n", g.NL, g.PS, g.Rich))}})
 		if err != nil {
-			return err
+			out <- elemBatch{err: err}
+			return
 		}
 		if r.ErrKind != "" {
-			return lib.Infra("design theorem fails in the model itself (%s): %s\n%s", name, r.Err, r.ErrTrace)
+			out <- elemBatch{err: lib.Infra("design theorem fails in the model itself (%s): %s\n%s", name, r.Err, r.ErrTrace)}
+			return
 		}
-		seen := map[string]bool{}
 		var lines []elemLine
+		n := 0
 		for _, s := range r.PrintedStrings() {
 			var l elemLine
 			if err := json.Unmarshal([]byte(s), &l); err != nil {
-				return lib.Infra("bad line from TLC: %v", err)
+				out <- elemBatch{err: lib.Infra("bad line from TLC: %v", err)}
+				return
 			}
+			n++
 			k, _ := json.Marshal(l.Segs)
 			if !seen[string(k)] {
 				seen[string(k)] = true
 				lines = append(lines, l)
 			}
 		}
+		if n == 0 || int64(n) > 2*r.Distinct {
+			out <- elemBatch{err: lib.Infra("%s: %d lines for %d states", name, n, r.Distinct)}
+			return
+		}
+		out <- elemBatch{name: name, nl: g.NL, idx: ci, lines: lines}
+	}
+}
+
+func replayElem(c *lib.Ctx, pool evPool, tmp string, b elemBatch) error {
+	lines, name := b.lines, b.name
+	g := struct{ NL int }{b.nl}
+	ci := b.idx
+	{
 		// the tree: one file per name over {a,b,c} of length 1..NL
 		var tree []Ent
 		var names func(prefix []int)
@@ -293,14 +348,11 @@ func genElem(c *lib.Ctx, pool evPool, tmp string) error {
 		if err := materialise(root, tree, nil); err != nil {
 			return lib.Infra("materialise: %v", err)
 		}
-		c.Logf("%s: %d patterns over %d names", name, len(lines), len(tree))
-		if len(lines) == 0 || int64(len(lines)) > r.Distinct {
-			return lib.Infra("%s: %d lines for %d states", name, len(lines), r.Distinct)
-		}
+		c.Logf("%s: %d new patterns over %d names", name, len(lines), len(tree))
 		shown := []Ent{{P: runes("<every name over a,b,c of length 1.." + fmt.Sprint(g.NL) + ">"), K: "file", T: []int{}}}
 		var first error
 		var mu sync.Mutex
-		err = inDir(root, func() error {
+		err := inDir(root, func() error {
 			lib.Parallel(len(lines), par, func(i int) {
 				l := lines[i]
 				ev := <-pool
@@ -376,42 +428,42 @@ type treeLine struct {
 	Out   []outcome `json:"out"`
 }
 
-func genTree(c *lib.Ctx, pool evPool, tmp string) error {
-	type cfg struct{ PS, MW, Rich int }
-	// theorem runs (M) at the first bound, emitting runs (G) at the others
-	thm := cfg{2, 2, 0}
-	cfgs := []cfg{{3, 2, 0}}
+type treeBatch struct {
+	name  string
+	idx   int
+	trees [][]Ent
+	lines []treeLine
+	err   error
+}
+
+func tlcTree(c *lib.Ctx, out chan<- treeBatch) {
+	defer close(out)
+	type cfg struct{ PS, MW, Rich, TPS int }
+	// design theorems (M) are checked on the patterns of up to TPS segments of the same run
+	cfgs := []cfg{{3, 2, 0, 2}}
 	if c.Thorough() {
-		thm = cfg{3, 2, 0}
-		cfgs = []cfg{{4, 2, 0}, {3, 2, 1}}
-	}
-	mk := func(g cfg, inv string) map[string][]byte {
-		return map[string][]byte{"MCGlobTree.cfg": []byte(fmt.Sprintf("CONSTANT PS = %d\nCONSTANT MW = %d\nCONSTANT RICH = %d\nINIT Init\nNEXT Next\nINVARIANT %s\n", g.PS, g.MW, g.Rich, inv))}
-	}
-	r0, err := c.TLC(fmt.Sprintf("MCGlobTree theorems(PS=%d,MW=%d,RICH=%d)", thm.PS, thm.MW, thm.Rich),
-		lib.TLCRun{Dir: c.SpecDir("Glob"), Module: "MCGlobTree", Workers: par, Timeout: 12 * time.Minute, Files: mk(thm, "Theorems")})
-	if err != nil {
-		return err
-	}
-	if r0.ErrKind != "" {
-		return lib.Infra("design theorem %s fails in the model itself: %s\n%s", r0.ErrName, r0.Err, r0.ErrTrace)
+		cfgs = []cfg{{4, 2, 0, 3}, {3, 2, 2, 2}}
 	}
 	seenPat := map[string]bool{}
 	for gi, g := range cfgs {
-		name := fmt.Sprintf("MCGlobTree(PS=%d,MW=%d,RICH=%d)", g.PS, g.MW, g.Rich)
-		r, err := c.TLC(name, lib.TLCRun{Dir: c.SpecDir("Glob"), Module: "MCGlobTree", Workers: par, Timeout: 14 * time.Minute, HeapGB: 6, Files: mk(g, "Emit")})
+		name := fmt.Sprintf("MCGlobTree(PS=%d,MW=%d,RICH=%d,TPS=%d)", g.PS, g.MW, g.Rich, g.TPS)
+		r, err := c.TLC(name, lib.TLCRun{Dir: c.SpecDir("Glob"), Module: "MCGlobTree", Workers: c.Pick(4, 5), Timeout: 14 * time.Minute, HeapGB: 6,
+			Files: map[string][]byte{"MCGlobTree.cfg": []byte(fmt.Sprintf("CONSTANT PS = %d\nCONSTANT MW = %d\nCONSTANT RICH = %d\nCONSTANT TPS = %d\nINIT Init\nNEXT Next\nINVARIANT Theorems\nINVARIANT Emit\n", g.PS, g.MW, g.Rich, g.TPS))}})
 		if err != nil {
-			return err
+			out <- treeBatch{err: err}
+			return
 		}
 		if r.ErrKind != "" {
-			return lib.Infra("%s: %s\n%s", name, r.Err, r.ErrTrace)
+			out <- treeBatch{err: lib.Infra("design theorem %s fails in the model itself (%s): %s\n%s", r.ErrName, name, r.Err, r.ErrTrace)}
+			return
 		}
 		var trees [][]Ent
 		var lines []treeLine
 		for _, s := range r.PrintedStrings() {
 			var l treeLine
 			if err := json.Unmarshal([]byte(s), &l); err != nil {
-				return lib.Infra("bad line from TLC: %v", err)
+				out <- treeBatch{err: lib.Infra("bad line from TLC: %v", err)}
+				return
 			}
 			if l.Trees != nil {
 				trees = l.Trees
@@ -424,9 +476,17 @@ func genTree(c *lib.Ctx, pool evPool, tmp string) error {
 			}
 		}
 		if trees == nil || len(lines) == 0 {
-			return lib.Infra("%s: no trees / no patterns received", name)
+			out <- treeBatch{err: lib.Infra("%s: no trees / no patterns received", name)}
+			return
 		}
-		c.Logf("%s: %d new patterns x %d trees", name, len(lines), len(trees))
+		out <- treeBatch{name: name, idx: gi, trees: trees, lines: lines}
+	}
+}
+
+func replayTree(c *lib.Ctx, pool evPool, tmp string, b treeBatch) error {
+	trees, lines, gi := b.trees, b.lines, b.idx
+	c.Logf("%s: %d new patterns x %d trees", b.name, len(lines), len(trees))
+	{
 		roots := make([]string, len(trees))
 		for ti, t := range trees {
 			normTree(t)
@@ -515,7 +575,5 @@ func genTree(c *lib.Ctx, pool evPool, tmp string) error {
 		}
 		c.Inc("g_tree_patterns", int64(len(lines)))
 	}
-	c.Set("exhaustive", true)
-	c.Set("g_scope", "trees: the 9 trees of MCGlobTree.Trees (names over {a,b,.} of length <= 2, depth <= 3, files/dirs/links); patterns: every sequence of <= PS segments with <= MW wildcards over the tier's symbol set, plain and with one rotating global-modifier variant; one component: all names over {a,b,c} of length <= 4")
 	return nil
 }
